@@ -334,6 +334,9 @@ func Gen(pr Profile) func(t *rapid.T) Scenario {
 			}
 			sc.File.Ops = kept
 			sc.Split = k + 1
+			if rapid.Bool().Draw(t, "preview") {
+				sc.Preview = rapid.IntRange(1, len(sc.File.Body)).Draw(t, "npreview")
+			}
 		}
 		return sc
 	}
